@@ -1,5 +1,6 @@
 """C10 / C11 (proof part): greedy selection, DecodingStrategy.step bookkeeping, get_log_likelihood."""
 import z3
+from tvc.core import is_z3 as is_z3_
 
 from tvc import ops
 from tvc.core import AND, IMPL, NOT, OR, cur, ite, mk, zint, zreal, SymTensor
@@ -20,11 +21,15 @@ def proper_logprobs(u, lp, mask, B, N):
                u.forall((B,), lambda b: u.exists((N,), lambda j: mask.at(b, j))))
 
 
+PL_CALLS = []     # the arguments of every process_logits call of the running unit (the caller must hand on ITS configuration)
+
+
 @spec(DEC, "process_logits")
 def process_logits_spec(u, selfobj, logits, mask=None, temperature=1.0, top_p=0.0, top_k=0, tanh_clipping=0, mask_logits=True):
     """Contract used by callers: an opaque [B,N] tensor of log-probabilities, -inf exactly on the masked actions
     (proper distribution: see the bounded stand-in decoding_dist for the normalisation / top-k / top-p clauses)."""
     _K[0] += 1
+    PL_CALLS.append(dict(logits=logits, mask=mask, temperature=temperature, top_p=top_p, top_k=top_k, tanh_clipping=tanh_clipping, mask_logits=mask_logits))
     lp = u.abstract(logits, f"logprobs{_K[0]}")
     if mask is not None and mask_logits:
         B, N = logits.shape
@@ -97,11 +102,22 @@ def _step_unit(u, cls, store_all):
     u.requires(u.forall((B,), lambda b: AND(given.at(b) >= 0, given.at(b) < N)))
     td = SymTD({"action_mask": mask}, (B,))
     prev_a, prev_l = u.tensor("prev_action", (B,), "i"), u.tensor("prev_logp", (B,), "f")
-    strat = _strategy(u, cls, store_all_logp=store_all, actions=[prev_a], logprobs=[prev_l])
+    # a non-default configuration (arbitrary temperature / top-p / clipping, top-k = 3): it has to reach process_logits unchanged
+    strat = _strategy(u, cls, store_all_logp=store_all, actions=[prev_a], logprobs=[prev_l], temperature=u.scalar("temperature", "f"),
+                      top_p=u.scalar("top_p", "f"), top_k=3, tanh_clipping=u.scalar("tanh_clipping", "f"))
     u.inline((DEC, f"{cls}._step"), (DEC, "DecodingStrategy.greedy"))
     m0 = _K[0]
+    del PL_CALLS[:]
     out = u.run(DEC, "DecodingStrategy.step", logits, mask, td, given if cls == "Evaluate" else None, selfobj=strat, record=False)
     acts, lps = strat._attrs["actions"], strat._attrs["logprobs"]
+    # the step distribution is built from THESE logits and THIS mask with the strategy's own temperature / top-p / top-k / tanh
+    # clipping / masking switch - in every mode (sampling, greedy, and re-evaluation of given actions alike)
+    cfg = strat._attrs
+    same = lambda x, y: (x is y) or (not is_z3_(x) and not is_z3_(y) and x == y) or ((is_z3_(x) or is_z3_(y)) and x is not None and y is not None and z3.simplify(x == y).eq(z3.BoolVal(True)))
+    u.prove("step.distribution-built-with-the-configured-filters",
+            len(PL_CALLS) == 1 and PL_CALLS[0]["logits"] is logits and PL_CALLS[0]["mask"] is mask
+            and all(same(PL_CALLS[0][k], cfg[k]) for k in ("temperature", "top_p", "top_k", "tanh_clipping", "mask_logits")),
+            note=str({k: (PL_CALLS[0][k] if PL_CALLS else None) for k in ("temperature", "top_p", "top_k", "tanh_clipping", "mask_logits")}))
     b = u.idx((B,), "b")
     j = u.idx((N,), "j")
     u.prove("step.one-entry-appended", AND(len(acts) == 2, len(lps) == 2, acts[0] is prev_a, lps[0] is prev_l))
